@@ -12,7 +12,7 @@ ASSUMPTIONS = c01.ASSUMPTIONS
 
 def run(run):
     exe = c01.build(run)
-    c01.run_seq(run, exe, c01.PLACEMENTS[:2])
+    c01.run_seq(run, exe, c01.PLACEMENTS[:3])
     try:
         from props import c06
     except ImportError:
